@@ -119,6 +119,8 @@ pub struct Shape {
     pub rows: &'static [Row],
     /// a descriptor wrapper accepted the miniscript, so plan rows are meaningful
     pub has_desc: bool,
+    /// some valuation has a (malleable-mode) satisfaction
+    pub satisfiable: bool,
     pub fig: Figures,
 }
 
